@@ -24,7 +24,7 @@ CLAIM = {
             "<- Node::forget_channel; forget_channel removes only stubs; (R15.3) new_channel refuses "
             "dbid_high_water_mark >= dbid before creating anything, forget_channel raises the mark to the channel's "
             "oid (only upwards) and persists it before returning, and the mark survives restart (C11 R11.2 slots). "
-            "Does not decide the numeric depth arithmetic at extremes.",
+            "(R15.4) the monitor recognises the node own outputs of a unilateral close by scripts built from the right keys: in decode_commitment_tx the to-us (non-delayed) script comes from the holder payment point, the holder delayed script from keys derived with holder delayed/htlc and counterparty revocation/htlc basepoints and the counterparty-selected delay, and the counterparty delayed script from the mirror image (else an unswept output is not seen and the channel counts as done). Does not decide the numeric depth arithmetic at extremes.",
     "note": "MIN_DEPTH constant evaluated by rustc; restart survival of channels relies on C11",
     "technique": "static analysis: who-may-call/write + must-pass-through + guard scenarios",
 }
@@ -36,6 +36,7 @@ def run(ctx):
     r151(ctx)
     r152(ctx)
     r153(ctx)
+    r154(ctx)
 
 
 def r151(ctx):
@@ -377,3 +378,44 @@ def r153(ctx):
                     f"{NODE}::new_channel_with_random_id": "random 32-byte ids from the keys manager (no dbid)",
                     f"{NODE}::new_channel_with_id": "test utility (cfg test_utils)"},
                    "Node::find_or_create_channel", floor=2)
+
+
+def r154(ctx):
+    ctx.rule("R15.4", "decode_commitment_tx builds the scripts that identify the node's own outputs from the right side's keys "
+                      "and delays (argument roles)")
+    p = ctx.prog
+    b = p.fn(LS + "util::transaction_utils::decode_commitment_tx")
+    fv = fnview(ctx, b)
+    H, C = "params.holder_pubkeys.", "params.counterparty_parameters?.pubkeys."
+    n = 0
+    for bi, c in b.calls():
+        nm = c.callee.name if c.callee else ""
+        a = [render(peel(fv.expr(x))) for x in c.args]
+        last = nm.rsplit("::", 1)[-1]
+        if last == "get_to_countersignatory_with_anchors_redeemscript" or (last == "from_slice" and "CompressedPublicKey" in nm):
+            n += 1
+            ok = (H + "payment_point") in a[0] and C not in a[0]
+            ctx.ob("R15.4", ok, f"{b.name}/to-us-script/{last}", f"the node's own non-delayed output script is built from `{a[0][-80:]}` "
+                   "(expected the holder payment point): the node's to_remote output of a counterparty close is not recognised, the "
+                   "close counts as swept and the channel can be pruned with funds unswept", where=f"{b.file}:{c.line}",
+                   sample="holder_pubkeys.payment_point")
+        elif last == "derive_new" and "TxCreationKeys" in nm and len(a) == 6:
+            n += 1
+            holder_side = a[1].startswith("holder_per_commitment_point")
+            want = [H + "delayed_payment_basepoint", H + "htlc_basepoint", C + "revocation_basepoint", C + "htlc_basepoint"] if holder_side \
+                else [C + "delayed_payment_basepoint", C + "htlc_basepoint", H + "revocation_basepoint", H + "htlc_basepoint"]
+            side = "holder" if holder_side else "counterparty"
+            ctx.ob("R15.4", a[2:] == want, f"{b.name}/tx-keys/{side}",
+                   f"tx keys for the {side} commitment derived from {[x[-40:] for x in a[2:]]}",
+                   where=f"{b.file}:{c.line}", sample=[x[-30:] for x in want])
+        elif last == "get_revokeable_redeemscript" and len(a) == 3:
+            n += 1
+            holder_side = "holder_per_commitment_point" in a[0]
+            side = "holder" if holder_side else "counterparty"
+            dl = "params.counterparty_parameters?.selected_contest_delay" if holder_side else "params.holder_selected_contest_delay"
+            ok = a[0].endswith(".revocation_key") and a[2].endswith(".broadcaster_delayed_payment_key") and a[1] == dl \
+                and ("holder_per_commitment_point" in a[2]) == holder_side
+            ctx.ob("R15.4", ok, f"{b.name}/delayed-script/{side}",
+                   f"delayed output script of the {side} commitment uses delay `{a[1][-60:]}`",
+                   where=f"{b.file}:{c.line}", sample=dl)
+    ctx.floor("R15.4", "script constructions in decode_commitment_tx", n, 5)
